@@ -70,6 +70,7 @@ def gen(tier, rng, harness=None):
             lines.append("!num.check " + s)
         ents = [rng.choice("GAIFD") + ":" + rng.choice("nu") for _ in range(rng.randint(1, 6))]
         lines.append("num.mod " + " ".join(ents))
+        lines.append("num.modapi " + " ".join(ents))
         lines.append("!num.modok " + " ".join(ents))
     if tier == "thorough":
         forms = ["P:i", "P:n", "B:i", "B:n", "V:n", "S", "C", "R", "IV"]
@@ -107,6 +108,8 @@ def nontrivial(ln, model_out):
 
 def search(ln, a, b, harness, driver):
     p = ln.split()
+    if p[0] == "num.modapi" and a.startswith("panic"):
+        return {"ops": [ln], "impl": [a], "model": [b]}      # a module built through the builder methods cannot be printed
     toks = p[1:]
     cands = []
     if p[0] in ("num.api", "num.parse"):
@@ -115,7 +118,7 @@ def search(ln, a, b, harness, driver):
         fixed = []
         for t in toks:
             q = t.split(":")
-            if q[0] in ("P", "B", "V", "CV", "I") and q[1] != "n":
+            if q[0] in ("P", "B", "V", "CV", "I", "K", "CB") and q[1] != "n":
                 fixed.append("%s:%s" % (q[0], "i" if q[1] == "i" else "e%d" % n)); n += 1
             else:
                 fixed.append(t)
